@@ -811,9 +811,9 @@ def run(ctx):
 
     # 4. C->S: histories of the algorithmic rewrites (C04's menu on generic networks; MPS / MPO / PEPS methods)
     from . import c02_struct as S2
-    nr, ns = (60, 3) if quick else (400, 4)
+    nr, ns = (60, 3) if quick else (300, 4)
     grecs, gnames = S2.rewrite_histories(ctx.seed, nr, ns, 300000)
-    nh, hs = (100, 8) if quick else (500, 10)
+    nh, hs = (100, 8) if quick else (300, 10)
     srecs, snames, srefused = S2.structured_histories(ctx.seed, nh, hs, 400000)
     fails += ctx.validate("C02_Trace", "Trace.cfg", grecs, name="rewrite-histories", ntraces=nr)
     fails += ctx.validate("C02_Trace", "Trace.cfg", srecs, name="structured-histories", ntraces=nh)
